@@ -303,6 +303,16 @@ class BuilderSim:
                 if exp is not None and out[1] != exp:
                     self.fail('fail.masked', f'{kind}: component raises {exp}, fly surfaced {out[1]}: {out[2]}',
                               surfaced=out[1], expected=exp, **feat)
+        pm_real = _PMS[m.get('pm', 0) % len(_PMS)]
+        early = kind in ('destination_above_cruise', 'unknown_origin', 'unknown_destination') or (
+            # an origin between cruise level and ceiling is flown from its own elevation (by design);
+            # only an origin above the aircraft's ceiling has to be rejected up front
+            kind == 'origin_above_cruise' and AIRPORTS.get(m['o'], (0, 0, 0))[2] * 0.3048 > pm_real.maximum_altitude)
+        if early and out[0] == 'exc' and not p.fired and p.counts['evaluate'] > 0:
+            # these reasons are known before anything is simulated: a mission that gets as far as
+            # evaluating the performance model was not rejected for its original reason
+            self.fail('fail.masked', f'{kind}: rejected only after {p.counts["evaluate"]} performance '
+                      f'evaluations, with {out[1]}: {out[2]}', surfaced=out[1], expected='rejection before the flight', **feat)
         if kind in NATURAL_KINDS and out[0] == 'ok' and not p.fired:
             if (kind != 'missing_weather' or opts['use_weather']) and \
                     self.expected_natural(m, opts, kind) is not None:
